@@ -335,6 +335,7 @@ func C17(c *Ctx) {
 		// isDocAddr: the address is &X.Doc of an ast node (possibly through a local pointer variable / φ)
 		nilEdge := map[*ssa.Phi]bool{}
 		nilCall := map[*ssa.Call]bool{}
+		nilExtract := map[*ssa.Extract]bool{}
 		helpers := map[*ssa.Function]bool{}
 		sawFileDoc := false
 		var isDocAddr func(a ssa.Value, d int) bool
@@ -374,6 +375,31 @@ func C17(c *Ctx) {
 					}
 					if kc, isK := hr.Results[0].(*ssa.Const); isK && kc.IsNil() {
 						nilCall[x] = true
+						continue
+					}
+					k++
+					if !isDocAddr(hr.Results[0], d+1) {
+						return false
+					}
+				}
+				return k > 0
+			case *ssa.Extract: // the same helper answering (address, flag …): the address is its first result
+				hc, isCall := x.Tuple.(*ssa.Call)
+				if !isCall || x.Index != 0 {
+					return false
+				}
+				callee := hc.Call.StaticCallee()
+				if callee == nil || callee.Blocks == nil || pkgOf(callee) != pkgOf(fn) {
+					return false
+				}
+				helpers[callee] = true
+				k := 0
+				for _, hr := range core.Returns(callee) {
+					if len(hr.Results) < 1 {
+						return false
+					}
+					if kc, isK := hr.Results[0].(*ssa.Const); isK && kc.IsNil() {
+						nilExtract[x] = true
 						continue
 					}
 					k++
@@ -427,6 +453,9 @@ func C17(c *Ctx) {
 			}))
 			if hc, isCall := u.X.(*ssa.Call); okDoc && isLoad && isCall && nilCall[hc] {
 				okDoc = d.Implies(c.M(false, isNilCmp(func(x *core.Term) bool { return x.V == ssa.Value(hc) })))
+			}
+			if ex, isEx := u.X.(*ssa.Extract); okDoc && isLoad && isEx && nilExtract[ex] {
+				okDoc = d.Implies(c.M(false, isNilCmp(func(x *core.Term) bool { return x.V == ssa.Value(ex) })))
 			}
 			if ph, isPhi := u.X.(*ssa.Phi); okDoc && isLoad && isPhi && nilEdge[ph] {
 				// the address itself may be nil: it must be tested too
